@@ -389,7 +389,7 @@ def run_check(pid, tier, seed, prop, gen_needed, tie, search=None, trusted=(), a
             broken.append({'translator': gen_bad})
         if not broken:
             broken.append({'proof_check': stats.get('log_tail', '') or 'Print Assumptions did not report a closed proof for every theorem'})
-        found = search() if search else []
+        found = [f for f in (search() if search else []) if not (isinstance(f, dict) and f.get('level') == 'model')]
         what = {'property': pid, 'kind': 'proof-obligation', 'broken': broken}
         name = fails[0][2] if fails else (t.get('msg') or str(broken[0]))[:160]
         if found:
